@@ -109,11 +109,13 @@ FAMILY = [
     ("sum_arg_arg", sm(arg("int"), arg("string")), ""),
     ("sum_product_many", sm(prod(arg("int"), arg("int")), many(arg("string"))), ""),
     ("optional_sum", optional(sm(usw("f", "flag"), opt(None, "opt", "int"))), ""),
+    ("optional_sum_product", optional(sm(prod(arg("int"), arg("int")), usw(None, "flag"))), ""),
     ("product_sum_arg", prod(sm(usw(None, "flag"), usw(None, "zed")), arg("string")), ""),
     ("sum_same_names", sm(sw(None, "flag"), sw(None, "flag")), ""),
     ("commands_basic", commands(opt(None, "opt", "int", 7), ("ca", arg("int")), ("cb", unit())), ""),
     ("commands_switch", commands(sw(None, "flag"), ("ca", opt(None, "opt", "string")), ("cb", many(arg("string")))), ""),
     ("commands_unit", commands(unit(), ("ca", sw("f", "flag")), ("cb", arg("enum"))), ""),
+    ("commands_sub_arg_opt", commands(sw(None, "flag"), ("ca", prod(arg("string"), opt(None, "opt", "int")))), ""),
     ("opt_then_commands", prod(opt(None, "opt", "int", 1), commands(unit(), ("ca", arg("string")))), ""),
     ("arg_then_commands", prod(arg("int"), commands(opt(None, "opt", "int", 7), ("ca", unit()))), ""),
     ("optional_commands", optional(commands(sw(None, "flag"), ("ca", arg("int")))), ""),
